@@ -197,10 +197,16 @@ func valueOf(ver, typ, key, tok string, seed int64) json.RawMessage {
 	pick := func(xs ...string) json.RawMessage { return json.RawMessage(xs[n]) }
 	switch key {
 	case "membership":
+		if typ == "m.room.member" && tok == "invite" {
+			return json.RawMessage(`"invite"`)
+		}
 		if typ == "m.room.member" {
 			return pick(`"join"`, `"leave"`, `"ban"`)
 		}
 	case "join_authorised_via_users_server":
+		if tok == "hs2" {
+			return q("@carol:" + hs2) // a user of another server: that server must sign a restricted join
+		}
 		return pick(qs("@carol:"+hs1), qs("@dave:"+hs1), qs("@mallory:"+hs1))
 	case "displayname":
 		return pick(qs(fmt.Sprintf("Bob <%d>", seed)), `"Bobby & co"`, `"Mallory "`)
